@@ -9,6 +9,7 @@ import (
 	"log/slog"
 	"net"
 	"sync"
+	"sync/atomic"
 	"syscall"
 	"time"
 
@@ -114,6 +115,9 @@ func has(l []int, x int) bool {
 type recMetrics struct {
 	b *board
 	c int
+	// the proxy's socket towards the client when the harness counts what its read calls return (nil otherwise): AddProbe then
+	// also records how many bytes the handler had taken from the socket at the moment of the report
+	conn *countedConn
 }
 
 func (m *recMetrics) AddAuthenticated(accessKey string) {
@@ -126,7 +130,11 @@ func (m *recMetrics) AddClosed(status string, d metrics.ProxyMetrics, _ time.Dur
 }
 func (m *recMetrics) AddProbe(status, drainResult string, n int64) {
 	m.b.update(m.c, func(o *connObs) {
-		o.mlog = append(o.mlog, mrec{M: "Probe", S: status, N: []int64{n}, Drain: drainResult})
+		ns := []int64{n}
+		if m.conn != nil {
+			ns = append(ns, m.conn.nread.Load())
+		}
+		o.mlog = append(o.mlog, mrec{M: "Probe", S: status, N: ns, Drain: drainResult})
 	})
 }
 
@@ -154,9 +162,16 @@ func (m *recServiceMetrics) AddUDPNatEntry(clientAddr net.Addr, accessKey string
 type countedConn struct {
 	c     *net.TCPConn
 	wrote func(n int)
+	nread atomic.Int64 // bytes the read calls of the code under test have returned so far
 }
 
-func (w *countedConn) Read(b []byte) (int, error) { return w.c.Read(b) }
+func (w *countedConn) Read(b []byte) (int, error) {
+	n, err := w.c.Read(b)
+	if n > 0 {
+		w.nread.Add(int64(n))
+	}
+	return n, err
+}
 func (w *countedConn) Write(b []byte) (int, error) {
 	n, err := w.c.Write(b)
 	if n > 0 {
